@@ -7,9 +7,10 @@ import Driver.C05
 import Driver.C17
 import Driver.C08
 import Driver.C03
+import Driver.Zone
 namespace Driver
 
-def handlers : List Handler := [handleC01, handleC07, handleC10, handleC09, handleC04, handleC05, handleC17, handleC08, handleC03]
+def handlers : List Handler := [handleC01, handleC07, handleC10, handleC09, handleC04, handleC05, handleC17, handleC08, handleC03, handleZone]
 
 def dispatch (line : String) : String :=
   let toks := (line.trimAscii.toString.splitOn " ").filter (· ≠ "")
